@@ -7,6 +7,8 @@ import (
 	"fmt"
 	"io"
 	"log"
+	"runtime"
+	"runtime/debug"
 	"sort"
 	"strings"
 	"time"
@@ -202,6 +204,7 @@ type RunOpts struct {
 // RunOne executes one run of a scenario on the given stream.
 func RunOne(sc *Scenario, st *simrt.Stream, o RunOpts) *RunResult {
 	resetGlobals()
+	heapBefore := heapAllocBytes()
 	pol, shuffle := drawPolicy(st)
 	rc := &RunCtx{St: st, Sc: sc, Tier: o.Tier, Index: o.Index}
 	hz := sc.Horizon
@@ -217,6 +220,12 @@ func RunOne(sc *Scenario, st *simrt.Stream, o RunOpts) *RunResult {
 			sc.Main(rc)
 		},
 	})
+	if h := heapAllocBytes(); h-heapBefore > 256<<20 {
+		// a run that made the code under test allocate hundreds of
+		// megabytes: give the memory back before the next run
+		runtime.GC()
+		debug.FreeOSMemory()
+	}
 	res := &RunResult{Scen: sc.Name, Stats: s.Stats, Probes: s.Probes, Faults: s.Faults, NChoices: st.Len()}
 	for _, c := range s.Crashes {
 		v := Violation{Oracle: "crash", Class: crashClass(c), Detail: c.G + ": " + c.Value + "\n" + trimStack(c.Stack)}
